@@ -458,8 +458,10 @@ def _run_conv(case, ctx):
             err = float(np.max(np.abs(got[..., :L] - E) / scale))
             if got.shape[-1] > L:
                 err = max(err, float(np.max(np.abs(got[..., L:]) / scale)))
-            if err <= tol:  # margins of the cases that hold (a violation is reported by the check below)
-                ctx.stat(f"conv_full_err_in_eps_{dt}", err / EPS[dt])
+            # odd padded sizes get their own margin (only cases that hold): on a tree with the irfft defect a few large
+            # float32 cases slip under the tolerance by accident and would otherwise pollute the measured margin
+            if not odd or err <= tol:
+                ctx.stat(f"conv_{'oddpad' if odd else 'full'}_err_in_eps_{dt}", err / EPS[dt])
             ctx.check(err <= tol, kfull, lambda: f"'full' differs from direct convolution by {err:.3g} x scale "
                                                  f"(tol {tol:.3g}); nsx={nsx} nsw={nsw} true padded size {pad}")
     got = ctx.call(ksame, F.convolve, x, w, mode="same")
@@ -470,8 +472,8 @@ def _run_conv(case, ctx):
         if ctx.check(got.shape == Es.shape, ksame, lambda: f"'same' shape {got.shape}, expected {Es.shape}; nsx={nsx} "
                                                           f"nsw={nsw} true padded size {pad}"):
             err = float(np.max(np.abs(got - Es) / scale))
-            if err <= tol:
-                ctx.stat(f"conv_same_err_in_eps_{dt}", err / EPS[dt])
+            if not odd or err <= tol:
+                ctx.stat(f"conv_{'oddpad' if odd else 'same'}_err_in_eps_{dt}", err / EPS[dt])
             ctx.check(err <= tol, ksame, lambda: f"'same' differs from the centred slice of the direct convolution by "
                                                  f"{err:.3g} x scale (tol {tol:.3g}); nsx={nsx} nsw={nsw} padded {pad}")
 
